@@ -87,7 +87,8 @@ def run(tier, seed, rep):
                         v["fields"] = [D.field("u8", "val" if v["kind"] == "named" else "")]
                         v["nf"] = 1
                 vs += [variant("Explicit", ser=["KeepMe_AsIs", "k"]), variant("Ts", ts="Also Kept"),
-                       variant("Both", ser=["ser_Only"], ts="To_String")]
+                       variant("Both", ser=["ser_Only"], ts="To_String"),
+                       variant("SameAsIdent", ser=["SameAsIdent"]), variant("TsSameAsIdent", ts="TsSameAsIdent")]
                 cands.append(enum(did, vs, style=st, cis=bool(did % 2), aci=bool((did // 2) % 2)))
                 did += 1
         facts = pipe.domain_pass(cands, PROP)
